@@ -244,13 +244,16 @@ class LaneBasedExecutionQueue : public ExecutionQueue {
       } else {
         queueCompleteCondition.wait_for(lock, std::chrono::seconds(10));
       }
-
-#if _WIN32
-      spawnedProcesses.signalAll(SIGTERM);
-#else
-      spawnedProcesses.signalAll(SIGKILL);
-#endif
     }
+
+    // Kill whatever is still running, also when the queue's destructor got
+    // here before this thread started to wait: it goes on to wait for every
+    // remaining process, including ones that were not interrupted.
+#if _WIN32
+    spawnedProcesses.signalAll(SIGTERM);
+#else
+    spawnedProcesses.signalAll(SIGKILL);
+#endif
   }
 
 public:
